@@ -70,14 +70,29 @@ func lockWaitSet() (set string, allLocks bool, n int) {
 		switch {
 		case IsLockWait(g.Reason):
 			blocked = append(blocked, fmt.Sprintf("goroutine %s [%s] in %s", g.ID, g.Reason, fn[strings.LastIndex(fn, "/")+1:]))
+		case strings.HasPrefix(g.Reason, "sleep") && sleepsAtTopLevel(g):
+			// the repository's own time.Sleep calls are the periodic / retry loops (replay-cache
+			// clean-up, usage upload, accept and dial retries); none of them sleeps with a lock held, and
+			// inside a bubble they cannot wake up while somebody waits for a mutex anyway
 		case g.Reason == "running" || g.Reason == "runnable" || g.Reason == "syscall" || strings.HasPrefix(g.Reason, "sleep"):
-			// a goroutine of the code under test that runs, or that sleeps on the bubble's clock while
-			// (possibly) holding a lock, could still release the waiters: no deadlock verdict
+			// a goroutine of the code under test that runs, or that sleeps inside a library call (the rate
+			// limiter sleeps under Stream.Write's lock) could still release the waiters: no deadlock verdict
 			allLocks = false
 		}
 	}
 	sort.Strings(blocked)
 	return strings.Join(blocked, "; "), allLocks, len(blocked)
+}
+
+// sleepsAtTopLevel: the frame that called time.Sleep is repository source itself (not a dependency
+// called from it).
+func sleepsAtTopLevel(g GInfo) bool {
+	for i, f := range g.Funcs {
+		if f == "time.Sleep" {
+			return i+1 < len(g.Files) && IsRepoSource(g.Files[i+1])
+		}
+	}
+	return false
 }
 
 func bubbleWatchdog(done chan struct{}) {
